@@ -1,5 +1,899 @@
-From Ferrous Require Import Base.Bytes Model.Resp.
+(** Proofs about Model/Resp.v (C20). *)
+From Ferrous Require Import Base.Bytes Model.Resp Proofs.BytesFacts.
 Open Scope Z_scope.
 
 Lemma reserve_request_bounded declared data : reserve_request declared data <= len data.
 Proof. unfold reserve_request. lia. Qed.
+
+(** induction principle for the nested frame type *)
+Section FrameInd.
+  Variable P : frame -> Prop.
+  Hypothesis Hsimple : forall b, P (FSimple b).
+  Hypothesis Herror : forall b, P (FError b).
+  Hypothesis Hint : forall z, P (FInt z).
+  Hypothesis Hbulk : forall b, P (FBulk b).
+  Hypothesis Hnb : P FNullBulk.
+  Hypothesis Harr : forall l, Forall P l -> P (FArray l).
+  Hypothesis Hna : P FNullArray.
+  Hypothesis Hnr : P FNoResponse.
+  Hypothesis Hnull : P FNull.
+  Hypothesis Hbool : forall b, P (FBool b).
+  Hypothesis Hdbl : forall b, P (FDouble b).
+  Hypothesis Hmap : forall l, Forall P l -> P (FMap l).
+  Hypothesis Hset : forall l, Forall P l -> P (FSet l).
+  Fixpoint frame_ind' (f : frame) : P f :=
+    let list_ind := fix list_ind (l : list frame) : Forall P l :=
+      match l with
+      | [] => Forall_nil P
+      | x :: r => Forall_cons x (frame_ind' x) (list_ind r)
+      end in
+    match f with
+    | FSimple b => Hsimple b | FError b => Herror b | FInt z => Hint z | FBulk b => Hbulk b
+    | FNullBulk => Hnb | FArray l => Harr l (list_ind l) | FNullArray => Hna
+    | FNoResponse => Hnr | FNull => Hnull | FBool b => Hbool b | FDouble b => Hdbl b
+    | FMap l => Hmap l (list_ind l) | FSet l => Hset l (list_ind l)
+    end.
+End FrameInd.
+
+Ltac ev_eqb := repeat match goal with
+  | |- context [Z.eqb ?a ?b] =>
+      let v := eval vm_compute in (Z.eqb a b) in
+      lazymatch v with
+      | true => change (Z.eqb a b) with true
+      | false => change (Z.eqb a b) with false
+      end
+  end; cbv iota.
+
+Section Facts.
+Variable dparse : bytes -> option Z.
+Variable dprint : Z -> bytes.
+Notation parse_frame := (parse_frame dparse).
+Notation ser := (ser dprint).
+Notation ser_list := (ser_list dprint).
+Notation wf := (wf dparse dprint).
+
+(** unfolding equations *)
+Lemma ser_array l : ser (FArray l) =
+  match ser_list l with (b, ok) => (42 :: print_nat (len l) ++ crlf ++ b, ok) end.
+Proof. reflexivity. Qed.
+Lemma ser_map l : ser (FMap l) =
+  match ser_list l with (b, ok) => (37 :: print_nat (len l / 2) ++ crlf ++ b, ok) end.
+Proof. reflexivity. Qed.
+Lemma ser_set l : ser (FSet l) =
+  match ser_list l with (b, ok) => (126 :: print_nat (len l) ++ crlf ++ b, ok) end.
+Proof. reflexivity. Qed.
+
+Lemma parse_seq_unfold pf fuel n data acc :
+  parse_seq pf fuel n data acc =
+  if n <=? 0 then SDone (rev acc) data else
+  match fuel with
+  | O => SMore
+  | S fuel' =>
+      match pf data with
+      | Done f rest => parse_seq pf fuel' (n - 1) rest (f :: acc)
+      | More => SMore
+      | Err => SErr
+      end
+  end.
+Proof. destruct fuel; reflexivity. Qed.
+
+(** a sequence of elements each of which round-trips *)
+Lemma parse_seq_roundtrip (pf : bytes -> pres) : forall l fuel acc rest,
+  Forall (fun f => exists b, ser f = (b, true) /\ forall r, pf (b ++ r) = Done f r) l ->
+  (length l <= fuel)%nat ->
+  exists b, ser_list l = (b, true) /\
+    parse_seq pf fuel (len l) (b ++ rest) acc = SDone (rev acc ++ l) rest.
+Proof.
+  induction l as [|x l IH]; intros fuel acc rest Hall Hfuel.
+  - exists []. split; [reflexivity|]. rewrite parse_seq_unfold. cbn. rewrite app_nil_r. reflexivity.
+  - inversion Hall as [|? ? (bx & Hsx & Hpx) Hl]; subst.
+    destruct fuel as [|fuel]; [cbn in Hfuel; lia|].
+    destruct (IH fuel (x :: acc) rest Hl ltac:(cbn in Hfuel; lia)) as (bl & Hsl & Hpl).
+    exists (bx ++ bl). split.
+    + cbn [Resp.ser_list]. rewrite Hsx, Hsl. reflexivity.
+    + rewrite parse_seq_unfold. rewrite len_cons.
+      replace (1 + len l <=? 0) with false by (pose proof (len_nonneg l); lia).
+      rewrite <- app_assoc, Hpx. replace (1 + len l - 1) with (len l) by lia.
+      rewrite Hpl. cbn [rev]. rewrite <- app_assoc. reflexivity.
+Qed.
+
+Lemma ser_nonempty f b : ser f = (b, true) -> b <> [].
+Proof.
+  destruct f; try (cbn [Resp.ser]; intros H; inversion H; discriminate).
+  - rewrite ser_array. destruct (ser_list l). intros H; inversion H; discriminate.
+  - cbn [Resp.ser]. destruct b0; intros H; inversion H; discriminate.
+  - rewrite ser_map. destruct (ser_list kvs). intros H; inversion H; discriminate.
+  - rewrite ser_set. destruct (ser_list l). intros H; inversion H; discriminate.
+Qed.
+
+Lemma ser_list_length l : forall b, ser_list l = (b, true) -> (length l <= length b)%nat.
+Proof.
+  induction l as [|x l IH]; intros b H; [cbn; lia|].
+  cbn [Resp.ser_list] in H. destruct (ser x) as [bx [|]] eqn:Ex; [|discriminate].
+  destruct (ser_list l) as [bl ok] eqn:El. inversion H; subst.
+  specialize (IH bl eq_refl). pose proof (ser_nonempty _ _ Ex).
+  destruct bx; [congruence|]. rewrite app_length. cbn [length]. lia.
+Qed.
+
+Lemma zskipn_app {A} (a b : list A) : zskipn (len a) (a ++ b) = b.
+Proof. unfold zskipn, len. rewrite Nat2Z.id. rewrite skipn_app, skipn_all, Nat.sub_diag. reflexivity. Qed.
+Lemma zfirstn_app {A} (a b : list A) : zfirstn (len a) (a ++ b) = a.
+Proof. unfold zfirstn, len. rewrite Nat2Z.id. rewrite firstn_app, firstn_all, Nat.sub_diag. cbn. apply app_nil_r. Qed.
+
+Lemma pow_bound n : 0 <= n <= u64_max -> 0 <= n < 10 ^ 40.
+Proof. pose proof u64_lt_pow. lia. Qed.
+
+(** ---- C20 round-trip ---- *)
+Lemma roundtrip_aux : forall f d, wf d f ->
+  exists b, ser f = (b, true) /\ forall rest, parse_frame d (b ++ rest) = Done f rest.
+Proof.
+  induction f using frame_ind'; intros [|d'] Hwf; try (exact (False_ind _ Hwf)); cbn [Resp.wf] in Hwf.
+  - (* simple *) eexists; split; [reflexivity|]. intros rest.
+    cbn [app Resp.parse_frame]. ev_eqb. rewrite <- app_assoc, split_crlf_line by exact Hwf. reflexivity.
+  - eexists; split; [reflexivity|]. intros rest.
+    cbn [app Resp.parse_frame]. ev_eqb. rewrite <- app_assoc, split_crlf_line by exact Hwf. reflexivity.
+  - (* int *) eexists; split; [reflexivity|]. intros rest.
+    cbn [app Resp.parse_frame]. ev_eqb.
+    assert (Hb : - 10 ^ 40 < z < 10 ^ 40).
+    { unfold in_i64, i64_min, i64_max in Hwf. pose proof i64_lt_pow. unfold i64_max in *. lia. }
+    rewrite <- app_assoc, split_crlf_line by (apply print_int_no_crlf; exact Hb).
+    rewrite parse_i64_print by exact Hwf. reflexivity.
+  - (* bulk *) eexists; split; [reflexivity|]. intros rest.
+    cbn [app Resp.parse_frame]. ev_eqb.
+    pose proof (len_nonneg b) as Hl.
+    assert (Hb : 0 <= len b < 10 ^ 40) by (pose proof i64_lt_pow; lia).
+    rewrite <- !app_assoc, split_crlf_line by (apply print_nat_no_crlf; exact Hb).
+    rewrite parse_i64_print_nat by lia.
+    replace (len b =? -1) with false by lia. replace (len b <? 0) with false by lia.
+    unfold parse_bulk_body.
+    replace (len (b ++ crlf ++ rest) <? len b + 2) with false
+      by (rewrite !len_app; pose proof (len_nonneg rest); change (len crlf) with 2; lia).
+    rewrite zskipn_app, zfirstn_app. cbn [crlf app]. ev_eqb. reflexivity.
+  - (* null bulk *) eexists; split; [reflexivity|]. intros rest.
+    cbn [app Resp.parse_frame]. ev_eqb. cbn [crlf split_crlf]. ev_eqb. cbn [andb].
+    change (parse_i64 [45; 49]) with (Some (-1)). ev_eqb. reflexivity.
+  - (* array *)
+    destruct Hwf as (Hlen & Hall).
+    assert (Hel : Forall (fun f => exists b, ser f = (b, true) /\
+                   forall r, parse_frame d' (b ++ r) = Done f r) l).
+    { rewrite Forall_forall in *. intros x Hx. apply (H x Hx d'). apply Hall; exact Hx. }
+    destruct (parse_seq_roundtrip (parse_frame d') l (length l) [] [] Hel (le_n _)) as (bl & Hsl & _).
+    exists (42 :: print_nat (len l) ++ crlf ++ bl). split.
+    + rewrite ser_array, Hsl. reflexivity.
+    + intros rest. cbn [app Resp.parse_frame]. ev_eqb.
+      pose proof (len_nonneg l) as Hl.
+      assert (Hb : 0 <= len l < 10 ^ 40) by (pose proof i64_lt_pow; lia).
+      rewrite <- !app_assoc, split_crlf_line by (apply print_nat_no_crlf; exact Hb).
+      rewrite parse_i64_print_nat by lia.
+      replace (len l =? -1) with false by lia. replace (len l <? 0) with false by lia.
+      destruct (parse_seq_roundtrip (parse_frame d') l (S (length (bl ++ rest))) [] rest Hel) as (bl' & Hsl' & Hp).
+      { pose proof (ser_list_length _ _ Hsl). rewrite app_length. lia. }
+      rewrite Hsl in Hsl'. inversion Hsl'; subst bl'. rewrite Hp. reflexivity.
+  - (* null array *) eexists; split; [reflexivity|]. intros rest.
+    cbn [app Resp.parse_frame]. ev_eqb. cbn [crlf split_crlf]. ev_eqb. cbn [andb].
+    change (parse_i64 [45; 49]) with (Some (-1)). ev_eqb. reflexivity.
+  - (* null *) eexists; split; [reflexivity|]. intros rest.
+    cbn [app crlf Resp.parse_frame]. ev_eqb. reflexivity.
+  - (* bool *) destruct b; (eexists; split; [reflexivity|]); intros rest;
+    cbn [app crlf Resp.parse_frame]; ev_eqb; reflexivity.
+  - (* double *) destruct Hwf as (Hp & Hc). eexists; split; [reflexivity|]. intros rest.
+    cbn [app Resp.parse_frame]. ev_eqb. rewrite <- app_assoc, split_crlf_line by exact Hc.
+    rewrite Hp. reflexivity.
+  - (* map *)
+    destruct Hwf as (Hlen & Hev & Hall).
+    assert (Hel : Forall (fun f => exists b, ser f = (b, true) /\
+                   forall r, parse_frame d' (b ++ r) = Done f r) l).
+    { rewrite Forall_forall in *. intros x Hx. apply (H x Hx d'). apply Hall; exact Hx. }
+    destruct (parse_seq_roundtrip (parse_frame d') l (length l) [] [] Hel (le_n _)) as (bl & Hsl & _).
+    exists (37 :: print_nat (len l / 2) ++ crlf ++ bl). split.
+    + rewrite ser_map, Hsl. reflexivity.
+    + intros rest. cbn [app Resp.parse_frame]. ev_eqb.
+      pose proof (len_nonneg l) as Hl.
+      assert (H2 : 2 * (len l / 2) = len l).
+      { apply Z.even_spec in Hev. destruct Hev as [k Hk]. rewrite Hk.
+        replace (2 * k / 2) with k by (symmetry; rewrite Z.mul_comm; apply Z.div_mul; lia). lia. }
+      assert (Hb : 0 <= len l / 2 < 10 ^ 40) by (apply pow_bound; lia).
+      rewrite <- !app_assoc, split_crlf_line by (apply print_nat_no_crlf; exact Hb).
+      rewrite parse_usize_print_nat by lia. rewrite H2.
+      destruct (parse_seq_roundtrip (parse_frame d') l (S (length (bl ++ rest))) [] rest Hel) as (bl' & Hsl' & Hp).
+      { pose proof (ser_list_length _ _ Hsl). rewrite app_length. lia. }
+      rewrite Hsl in Hsl'. inversion Hsl'; subst bl'. rewrite Hp. reflexivity.
+  - (* set *)
+    destruct Hwf as (Hlen & Hall).
+    assert (Hel : Forall (fun f => exists b, ser f = (b, true) /\
+                   forall r, parse_frame d' (b ++ r) = Done f r) l).
+    { rewrite Forall_forall in *. intros x Hx. apply (H x Hx d'). apply Hall; exact Hx. }
+    destruct (parse_seq_roundtrip (parse_frame d') l (length l) [] [] Hel (le_n _)) as (bl & Hsl & _).
+    exists (126 :: print_nat (len l) ++ crlf ++ bl). split.
+    + rewrite ser_set, Hsl. reflexivity.
+    + intros rest. cbn [app Resp.parse_frame]. ev_eqb.
+      pose proof (len_nonneg l) as Hl.
+      assert (Hb : 0 <= len l < 10 ^ 40) by (apply pow_bound; lia).
+      rewrite <- !app_assoc, split_crlf_line by (apply print_nat_no_crlf; exact Hb).
+      rewrite parse_usize_print_nat by lia.
+      destruct (parse_seq_roundtrip (parse_frame d') l (S (length (bl ++ rest))) [] rest Hel) as (bl' & Hsl' & Hp).
+      { pose proof (ser_list_length _ _ Hsl). rewrite app_length. lia. }
+      rewrite Hsl in Hsl'. inversion Hsl'; subst bl'. rewrite Hp. reflexivity.
+Qed.
+
+
+(** ---- monotonicity of the frame parser under more input ---- *)
+Definition mono (g : bytes -> pres) : Prop :=
+  (forall x f r, g x = Done f r ->
+     (length r <= length x)%nat /\ forall m, g (x ++ m) = Done f (r ++ m)) /\
+  (forall x, g x = Err -> forall m, g (x ++ m) = Err).
+Definition good (pf : bytes -> pres) : Prop :=
+  mono pf /\ forall x f r, pf x = Done f r -> (length r < length x)%nat.
+
+Lemma mono_ext (g1 g2 : bytes -> pres) : (forall x, g1 x = g2 x) -> mono g1 -> mono g2.
+Proof.
+  intros He [HD HE]. split.
+  - intros x f r H. rewrite <- He in H. destruct (HD _ _ _ H) as [Hl Hm].
+    split; [exact Hl|]. intros m. rewrite <- He. apply Hm.
+  - intros x H m. rewrite <- He in *. apply HE; exact H.
+Qed.
+Lemma mono_done f : mono (fun rest => Done f rest).
+Proof.
+  split; [|discriminate]. intros x f0 r H. inversion H; subst. split; [lia|reflexivity].
+Qed.
+Lemma mono_err : mono (fun _ => Err).
+Proof. split; [discriminate|reflexivity]. Qed.
+Lemma mono_more : mono (fun _ => More).
+Proof. split; discriminate. Qed.
+
+Lemma line_mono (K : bytes -> bytes -> pres) : (forall line, mono (K line)) ->
+  mono (fun body => match split_crlf body with
+                    | None => More
+                    | Some (line, rest) => K line rest
+                    end).
+Proof.
+  intros HK. split.
+  - intros x f r H. destruct (split_crlf x) as [[line rest]|] eqn:Es; [|discriminate].
+    destruct (HK line) as [HD _]. destruct (HD _ _ _ H) as [Hl Hm].
+    pose proof (split_crlf_length _ _ _ Es). split; [lia|].
+    intros m. rewrite (split_crlf_app _ _ _ m Es). apply Hm.
+  - intros x H m. destruct (split_crlf x) as [[line rest]|] eqn:Es; [|discriminate].
+    destruct (HK line) as [_ HE]. rewrite (split_crlf_app _ _ _ m Es). apply HE; exact H.
+Qed.
+
+Lemma parse_seq_mono pf (Hpf : good pf) : forall fuel n data acc,
+  (length data < fuel)%nat ->
+  match parse_seq pf fuel n data acc with
+  | SDone fs rest =>
+      (length rest <= length data)%nat /\
+      forall m fuel', (length (data ++ m) < fuel')%nat ->
+        parse_seq pf fuel' n (data ++ m) acc = SDone fs (rest ++ m)
+  | SErr => forall m fuel', (length (data ++ m) < fuel')%nat ->
+        parse_seq pf fuel' n (data ++ m) acc = SErr
+  | SMore => True
+  end.
+Proof.
+  destruct Hpf as [[HD HE] HS].
+  induction fuel as [|fuel IH]; intros n data acc Hf; [lia|].
+  rewrite parse_seq_unfold. destruct (n <=? 0) eqn:En.
+  - split; [lia|]. intros m fuel' _. rewrite parse_seq_unfold, En. reflexivity.
+  - destruct (pf data) as [f r| |] eqn:Ep.
+    + destruct (HD _ _ _ Ep) as [_ Hm]. pose proof (HS _ _ _ Ep) as Hl.
+      specialize (IH (n - 1) r (f :: acc) ltac:(lia)).
+      destruct (parse_seq pf fuel (n - 1) r (f :: acc)) as [fs rest| |] eqn:Es; [| exact I |].
+      * destruct IH as [Hl2 IH]. split; [lia|]. intros m fuel' Hf'.
+        destruct fuel' as [|fuel']; [lia|].
+        rewrite parse_seq_unfold, En, Hm. apply IH.
+        rewrite app_length in *. lia.
+      * intros m fuel' Hf'. destruct fuel' as [|fuel']; [lia|].
+        rewrite parse_seq_unfold, En, Hm. apply IH. rewrite app_length in *. lia.
+    + exact I.
+    + intros m fuel' Hf'. destruct fuel' as [|fuel']; [lia|].
+      rewrite parse_seq_unfold, En, (HE _ Ep). reflexivity.
+Qed.
+
+Lemma parse_bulk_body_mono n : 0 <= n -> mono (parse_bulk_body n).
+Proof.
+  intros Hn. unfold parse_bulk_body. split.
+  - intros x f r H. destruct (len x <? n + 2) eqn:El; [discriminate|].
+    apply Z.ltb_ge in El.
+    assert (Hx : x = zfirstn n x ++ zskipn n x) by (unfold zfirstn, zskipn; symmetry; apply firstn_skipn).
+    destruct (zskipn n x) as [|c1 [|c2 rest']] eqn:Es; try discriminate.
+    destruct ((c1 =? 13) && (c2 =? 10)) eqn:Ec; [|discriminate].
+    inversion H; subst f r. split.
+    + apply (f_equal (@length Z)) in Hx. rewrite app_length in Hx. cbn [length] in Hx. lia.
+    + intros m. replace (len (x ++ m) <? n + 2) with false
+        by (rewrite len_app; pose proof (len_nonneg m); lia).
+      unfold zskipn, zfirstn in *. rewrite skipn_app, firstn_app.
+      replace (Z.to_nat n - length x)%nat with 0%nat by (unfold len in El; lia).
+      cbn [skipn firstn]. rewrite app_nil_r, Es. cbn [app]. rewrite Ec. reflexivity.
+  - intros x H m. destruct (len x <? n + 2) eqn:El; [discriminate|].
+    apply Z.ltb_ge in El.
+    replace (len (x ++ m) <? n + 2) with false
+      by (rewrite len_app; pose proof (len_nonneg m); lia).
+    unfold zskipn in *. rewrite skipn_app.
+    replace (Z.to_nat n - length x)%nat with 0%nat by (unfold len in El; lia).
+    cbn [skipn]. destruct (skipn (Z.to_nat n) x) as [|c1 [|c2 rest']] eqn:Es; try discriminate.
+    cbn [app]. destruct ((c1 =? 13) && (c2 =? 10)); [discriminate|reflexivity].
+Qed.
+
+(** the aggregate branches, as functions of the bytes after the header line *)
+Lemma agg_mono pf (C : list frame -> frame) n :
+  good pf ->
+  mono (fun rest => match parse_seq pf (S (length rest)) n rest [] with
+                    | SDone fs rest' => Done (C fs) rest'
+                    | SMore => More
+                    | SErr => Err
+                    end).
+Proof.
+  intros Hg. split.
+  - intros x f r H.
+    pose proof (parse_seq_mono _ Hg (S (length x)) n x [] ltac:(lia)) as Hm.
+    destruct (parse_seq pf (S (length x)) n x []) as [fs rest'| |]; try discriminate.
+    inversion H; subst f r. destruct Hm as [Hl Hm].
+    split; [exact Hl|]. intros m. rewrite (Hm m (S (length (x ++ m))) ltac:(lia)). reflexivity.
+  - intros x H m.
+    pose proof (parse_seq_mono _ Hg (S (length x)) n x [] ltac:(lia)) as Hm.
+    destruct (parse_seq pf (S (length x)) n x []) as [fs rest'| |]; try discriminate.
+    rewrite (Hm m (S (length (x ++ m))) ltac:(lia)). reflexivity.
+Qed.
+
+Lemma parse_frame_unfold d' t body :
+  parse_frame (S d') (t :: body) =
+    if t =? 43 then
+      match split_crlf body with
+      | None => More
+      | Some (line, rest) => Done (FSimple line) rest
+      end
+    else if t =? 45 then
+      match split_crlf body with
+      | None => More
+      | Some (line, rest) => Done (FError line) rest
+      end
+    else if t =? 58 then
+      match split_crlf body with
+      | None => More
+      | Some (line, rest) =>
+          match parse_i64 line with Some z => Done (FInt z) rest | None => Err end
+      end
+    else if t =? 36 then
+      match split_crlf body with
+      | None => More
+      | Some (line, rest) =>
+          match parse_i64 line with
+          | None => Err
+          | Some n =>
+              if n =? -1 then Done FNullBulk rest
+              else if n <? 0 then Err
+              else parse_bulk_body n rest
+          end
+      end
+    else if t =? 42 then
+      match split_crlf body with
+      | None => More
+      | Some (line, rest) =>
+          match parse_i64 line with
+          | None => Err
+          | Some n =>
+              if n =? -1 then Done FNullArray rest
+              else if n <? 0 then Err
+              else match parse_seq (parse_frame d') (S (length rest)) n rest [] with
+                   | SDone fs rest' => Done (FArray fs) rest'
+                   | SMore => More
+                   | SErr => Err
+                   end
+          end
+      end
+    else if t =? 95 then
+      match body with
+      | c1 :: c2 :: rest => if (c1 =? 13) && (c2 =? 10) then Done FNull rest else Err
+      | _ => More
+      end
+    else if t =? 35 then
+      match body with
+      | c1 :: c2 :: c3 :: rest =>
+          if (c1 =? 116) && (c2 =? 13) && (c3 =? 10) then Done (FBool true) rest
+          else if (c1 =? 102) && (c2 =? 13) && (c3 =? 10) then Done (FBool false) rest
+          else Err
+      | _ => More
+      end
+    else if t =? 44 then
+      match split_crlf body with
+      | None => More
+      | Some (line, rest) =>
+          match dparse line with Some b => Done (FDouble b) rest | None => Err end
+      end
+    else if t =? 37 then
+      match split_crlf body with
+      | None => More
+      | Some (line, rest) =>
+          match parse_usize line with
+          | None => Err
+          | Some n =>
+              match parse_seq (parse_frame d') (S (length rest)) (2 * n) rest [] with
+              | SDone fs rest' => Done (FMap fs) rest'
+              | SMore => More
+              | SErr => Err
+              end
+          end
+      end
+    else if t =? 126 then
+      match split_crlf body with
+      | None => More
+      | Some (line, rest) =>
+          match parse_usize line with
+          | None => Err
+          | Some n =>
+              match parse_seq (parse_frame d') (S (length rest)) n rest [] with
+              | SDone fs rest' => Done (FSet fs) rest'
+              | SMore => More
+              | SErr => Err
+              end
+          end
+      end
+    else Err.
+Proof. reflexivity. Qed.
+
+
+Lemma parse_frame_body_mono d' t : good (parse_frame d') ->
+  mono (fun body => parse_frame (S d') (t :: body)).
+Proof.
+  intros Hg.
+  destruct (t =? 43) eqn:E1.
+  { apply (mono_ext (fun body => match split_crlf body with None => More | Some (line, rest) => (fun line rest => Done (FSimple line) rest) line rest end));
+      [intros x; rewrite parse_frame_unfold, E1; reflexivity|].
+    apply (line_mono (fun line rest => Done (FSimple line) rest)). intros; apply mono_done. }
+  destruct (t =? 45) eqn:E2.
+  { apply (mono_ext (fun body => match split_crlf body with None => More | Some (line, rest) => (fun line rest => Done (FError line) rest) line rest end));
+      [intros x; rewrite parse_frame_unfold, E1, E2; reflexivity|].
+    apply (line_mono (fun line rest => Done (FError line) rest)). intros; apply mono_done. }
+  destruct (t =? 58) eqn:E3.
+  { apply (mono_ext (fun body => match split_crlf body with None => More | Some (line, rest) => (fun line rest => match parse_i64 line with
+                                       | Some z => Done (FInt z) rest | None => Err end) line rest end));
+      [intros x; rewrite parse_frame_unfold, E1, E2, E3; reflexivity|].
+    apply (line_mono (fun line rest => match parse_i64 line with
+                                       | Some z => Done (FInt z) rest | None => Err end)).
+    intros line. destruct (parse_i64 line); [apply mono_done|apply mono_err]. }
+  destruct (t =? 36) eqn:E4.
+  { apply (mono_ext (fun body => match split_crlf body with None => More | Some (line, rest) => (fun line rest => match parse_i64 line with
+          | None => Err
+          | Some n => if n =? -1 then Done FNullBulk rest
+                      else if n <? 0 then Err else parse_bulk_body n rest end) line rest end));
+      [intros x; rewrite parse_frame_unfold, E1, E2, E3, E4; reflexivity|].
+    apply (line_mono (fun line rest => match parse_i64 line with
+          | None => Err
+          | Some n => if n =? -1 then Done FNullBulk rest
+                      else if n <? 0 then Err else parse_bulk_body n rest end)).
+    intros line. destruct (parse_i64 line) as [n|]; [|apply mono_err].
+    destruct (n =? -1); [apply mono_done|]. destruct (n <? 0) eqn:En; [apply mono_err|].
+    apply parse_bulk_body_mono. lia. }
+  destruct (t =? 42) eqn:E5.
+  { apply (mono_ext (fun body => match split_crlf body with None => More | Some (line, rest) => (fun line rest => match parse_i64 line with
+          | None => Err
+          | Some n => if n =? -1 then Done FNullArray rest
+                      else if n <? 0 then Err
+                      else match parse_seq (parse_frame d') (S (length rest)) n rest [] with
+                           | SDone fs rest' => Done (FArray fs) rest'
+                           | SMore => More
+                           | SErr => Err
+                           end end) line rest end));
+      [intros x; rewrite parse_frame_unfold, E1, E2, E3, E4, E5; reflexivity|].
+    apply (line_mono (fun line rest => match parse_i64 line with
+          | None => Err
+          | Some n => if n =? -1 then Done FNullArray rest
+                      else if n <? 0 then Err
+                      else match parse_seq (parse_frame d') (S (length rest)) n rest [] with
+                           | SDone fs rest' => Done (FArray fs) rest'
+                           | SMore => More
+                           | SErr => Err
+                           end end)).
+    intros line. destruct (parse_i64 line) as [n|]; [|apply mono_err].
+    destruct (n =? -1); [apply mono_done|]. destruct (n <? 0) eqn:En; [apply mono_err|].
+    apply (agg_mono (parse_frame d') FArray n Hg). }
+  destruct (t =? 95) eqn:E6.
+  { apply (mono_ext (fun body => match body with
+      | c1 :: c2 :: rest => if (c1 =? 13) && (c2 =? 10) then Done FNull rest else Err
+      | _ => More end));
+      [intros x; rewrite parse_frame_unfold, E1, E2, E3, E4, E5, E6; reflexivity|].
+    split.
+    - intros x f r H. destruct x as [|c1 [|c2 rest]]; try discriminate.
+      destruct ((c1 =? 13) && (c2 =? 10)) eqn:Ec; [|discriminate].
+      inversion H; subst. split; [cbn [length]; lia|]. intros m. cbn [app]. rewrite Ec. reflexivity.
+    - intros x H m. destruct x as [|c1 [|c2 rest]]; try discriminate.
+      cbn [app]. destruct ((c1 =? 13) && (c2 =? 10)); [discriminate|reflexivity]. }
+  destruct (t =? 35) eqn:E7.
+  { apply (mono_ext (fun body => match body with
+      | c1 :: c2 :: c3 :: rest =>
+          if (c1 =? 116) && (c2 =? 13) && (c3 =? 10) then Done (FBool true) rest
+          else if (c1 =? 102) && (c2 =? 13) && (c3 =? 10) then Done (FBool false) rest
+          else Err
+      | _ => More end));
+      [intros x; rewrite parse_frame_unfold, E1, E2, E3, E4, E5, E6, E7; reflexivity|].
+    split.
+    - intros x f r H. destruct x as [|c1 [|c2 [|c3 rest]]]; try discriminate.
+      destruct ((c1 =? 116) && (c2 =? 13) && (c3 =? 10)) eqn:Ec.
+      + inversion H; subst. split; [cbn [length]; lia|]. intros m. cbn [app]. rewrite Ec. reflexivity.
+      + destruct ((c1 =? 102) && (c2 =? 13) && (c3 =? 10)) eqn:Ec2; [|discriminate].
+        inversion H; subst. split; [cbn [length]; lia|]. intros m. cbn [app]. rewrite Ec, Ec2. reflexivity.
+    - intros x H m. destruct x as [|c1 [|c2 [|c3 rest]]]; try discriminate.
+      cbn [app]. destruct ((c1 =? 116) && (c2 =? 13) && (c3 =? 10)); [discriminate|].
+      destruct ((c1 =? 102) && (c2 =? 13) && (c3 =? 10)); [discriminate|reflexivity]. }
+  destruct (t =? 44) eqn:E8.
+  { apply (mono_ext (fun body => match split_crlf body with None => More | Some (line, rest) => (fun line rest => match dparse line with
+                                       | Some b => Done (FDouble b) rest | None => Err end) line rest end));
+      [intros x; rewrite parse_frame_unfold, E1, E2, E3, E4, E5, E6, E7, E8; reflexivity|].
+    apply (line_mono (fun line rest => match dparse line with
+                                       | Some b => Done (FDouble b) rest | None => Err end)).
+    intros line. destruct (dparse line); [apply mono_done|apply mono_err]. }
+  destruct (t =? 37) eqn:E9.
+  { apply (mono_ext (fun body => match split_crlf body with None => More | Some (line, rest) => (fun line rest => match parse_usize line with
+          | None => Err
+          | Some n => match parse_seq (parse_frame d') (S (length rest)) (2 * n) rest [] with
+                      | SDone fs rest' => Done (FMap fs) rest'
+                      | SMore => More
+                      | SErr => Err
+                      end end) line rest end));
+      [intros x; rewrite parse_frame_unfold, E1, E2, E3, E4, E5, E6, E7, E8, E9; reflexivity|].
+    apply (line_mono (fun line rest => match parse_usize line with
+          | None => Err
+          | Some n => match parse_seq (parse_frame d') (S (length rest)) (2 * n) rest [] with
+                      | SDone fs rest' => Done (FMap fs) rest'
+                      | SMore => More
+                      | SErr => Err
+                      end end)).
+    intros line. destruct (parse_usize line) as [n|]; [|apply mono_err].
+    apply (agg_mono (parse_frame d') FMap (2 * n) Hg). }
+  destruct (t =? 126) eqn:E10.
+  { apply (mono_ext (fun body => match split_crlf body with None => More | Some (line, rest) => (fun line rest => match parse_usize line with
+          | None => Err
+          | Some n => match parse_seq (parse_frame d') (S (length rest)) n rest [] with
+                      | SDone fs rest' => Done (FSet fs) rest'
+                      | SMore => More
+                      | SErr => Err
+                      end end) line rest end));
+      [intros x; rewrite parse_frame_unfold, E1, E2, E3, E4, E5, E6, E7, E8, E9, E10; reflexivity|].
+    apply (line_mono (fun line rest => match parse_usize line with
+          | None => Err
+          | Some n => match parse_seq (parse_frame d') (S (length rest)) n rest [] with
+                      | SDone fs rest' => Done (FSet fs) rest'
+                      | SMore => More
+                      | SErr => Err
+                      end end)).
+    intros line. destruct (parse_usize line) as [n|]; [|apply mono_err].
+    apply (agg_mono (parse_frame d') FSet n Hg). }
+  apply (mono_ext (fun _ => Err));
+    [intros x; rewrite parse_frame_unfold, E1, E2, E3, E4, E5, E6, E7, E8, E9, E10; reflexivity|].
+  apply mono_err.
+Qed.
+
+Lemma parse_frame_good : forall d, good (parse_frame d).
+Proof.
+  induction d as [|d' IH].
+  - split; [apply mono_err|discriminate].
+  - assert (Hb := fun t => parse_frame_body_mono d' t IH).
+    split; [split|].
+    + intros [|t body] f r H; [discriminate|]. destruct (Hb t) as [HD _].
+      destruct (HD body f r H) as [Hl Hm]. split; [cbn [length]; lia|].
+      intros m. exact (Hm m).
+    + intros [|t body] H m; [discriminate|]. destruct (Hb t) as [_ HE]. exact (HE body H m).
+    + intros [|t body] f r H; [discriminate|]. destruct (Hb t) as [HD _].
+      destruct (HD body f r H) as [Hl _]. cbn [length]. lia.
+Qed.
+
+(** ---- RespParser::parse and the drain loop ---- *)
+Lemma drop_while_idem p x : drop_while p (drop_while p x) = drop_while p x.
+Proof.
+  induction x as [|c x IH]; [reflexivity|]. cbn [drop_while].
+  destruct (p c) eqn:E; [exact IH|]. cbn [drop_while]. rewrite E. reflexivity.
+Qed.
+Lemma drop_while_length p x : (length (drop_while p x) <= length x)%nat.
+Proof. induction x as [|c x IH]; cbn [drop_while length]; [lia|]. destruct (p c); cbn [length]; lia. Qed.
+Lemma drop_while_app_ne p x m : drop_while p x <> [] -> drop_while p (x ++ m) = drop_while p x ++ m.
+Proof.
+  induction x as [|c x IH]; cbn [drop_while app]; [congruence|].
+  destruct (p c); [exact IH|reflexivity].
+Qed.
+Lemma drop_while_app_nil p x m : drop_while p x = [] -> drop_while p (x ++ m) = drop_while p m.
+Proof.
+  induction x as [|c x IH]; cbn [drop_while app]; [reflexivity|].
+  destruct (p c); [exact IH|discriminate].
+Qed.
+Lemma drop_while_sub (p q : Z -> bool) (Hpq : forall c, p c = true -> q c = true) :
+  forall s m, drop_while q (drop_while p (s ++ m)) = drop_while q (drop_while p s ++ m).
+Proof.
+  assert (H0 : forall m, drop_while q (drop_while p m) = drop_while q m).
+  { induction m as [|c m IH]; [reflexivity|]. cbn [drop_while]. destruct (p c) eqn:E.
+    - rewrite (Hpq _ E). exact IH.
+    - reflexivity. }
+  induction s as [|c s IH]; intros m.
+  - cbn [app drop_while]. apply H0.
+  - cbn [app drop_while]. destruct (p c); [apply IH|reflexivity].
+Qed.
+Lemma drop_while_head p x c r : drop_while p x = c :: r -> p c = false.
+Proof.
+  induction x as [|d x IH]; cbn [drop_while]; [discriminate|].
+  destruct (p d) eqn:E; [exact IH|]. intros H; inversion H; subst; exact E.
+Qed.
+Lemma drop_while_fix p c r : p c = false -> drop_while p (c :: r) = c :: r.
+Proof. intros H. cbn [drop_while]. rewrite H. reflexivity. Qed.
+
+Lemma nl_sub_ws c : is_nl c = true -> is_ws c = true.
+Proof. unfold is_nl, is_ws. lia. Qed.
+Lemma ws2_sub_ws c : is_ws2 c = true -> is_ws c = true.
+Proof. unfold is_ws2, is_ws. lia. Qed.
+
+(** parse on a buffer whose leading whitespace has been dropped *)
+Definition parse_core (b : bytes) : pres * bytes :=
+  match b with
+  | [] => (More, b)
+  | _ =>
+    if (len b <? 4) && is_prefix b ping then (More, b)
+    else if is_prefix ping b then
+      (Done (FArray [FBulk ping]) [], drop_while is_ws2 (skipn 4 b))
+    else match parse_frame max_levels b with
+         | Done f rest => (Done f [], drop_while is_nl rest)
+         | More => (More, b)
+         | Err => (Err, b)
+         end
+  end.
+Notation wsn := (drop_while is_ws).
+Lemma parse_top_core buf : parse_top dparse buf = parse_core (wsn buf).
+Proof. reflexivity. Qed.
+
+Lemma is_prefix_app p b m : is_prefix p b = true -> is_prefix p (b ++ m) = true.
+Proof.
+  revert b; induction p as [|x p IH]; intros b H; [reflexivity|].
+  destruct b as [|y b]; [discriminate|]. cbn [is_prefix app] in *.
+  apply andb_prop in H as [H1 H2]. rewrite H1, (IH _ H2). reflexivity.
+Qed.
+(** if p is a prefix of b++m but not of b, then b is a proper prefix of p *)
+Lemma is_prefix_app_inv p : forall b m, is_prefix p (b ++ m) = true -> is_prefix p b = false ->
+  is_prefix b p = true /\ (length b < length p)%nat.
+Proof.
+  induction p as [|x p IH]; intros b m H Hn; [discriminate|].
+  destruct b as [|y b]; [split; [reflexivity|cbn; lia]|].
+  cbn [is_prefix app] in *. apply andb_prop in H as [H1 H2]. rewrite H1 in Hn. cbn [andb] in Hn.
+  destruct (IH _ _ H2 Hn) as [Ha Hb]. apply Z.eqb_eq in H1. subst y.
+  rewrite Z.eqb_refl, Ha. split; [reflexivity|cbn [length]; lia].
+Qed.
+Lemma is_prefix_of_app b m p : is_prefix (b ++ m) p = true -> is_prefix b p = true.
+Proof.
+  revert p; induction b as [|y b IH]; intros p H; [reflexivity|].
+  destruct p as [|x p]; [discriminate|]. cbn [is_prefix app] in *.
+  apply andb_prop in H as [H1 H2]. rewrite H1, (IH _ H2). reflexivity.
+Qed.
+
+Lemma parse_core_cond1 b m : b <> [] ->
+  (len b <? 4) && is_prefix b ping = false ->
+  (len (b ++ m) <? 4) && is_prefix (b ++ m) ping = false.
+Proof.
+  intros Hne H. destruct ((len (b ++ m) <? 4) && is_prefix (b ++ m) ping) eqn:E; [|reflexivity].
+  apply andb_prop in E as [E1 E2]. apply is_prefix_of_app in E2.
+  rewrite E2 in H. rewrite len_app in E1. pose proof (len_nonneg m).
+  replace (len b <? 4) with true in H by lia. discriminate.
+Qed.
+Lemma parse_core_cond2 b m :
+  (len b <? 4) && is_prefix b ping = false -> is_prefix ping b = false ->
+  is_prefix ping (b ++ m) = false.
+Proof.
+  intros H1 H2. destruct (is_prefix ping (b ++ m)) eqn:E; [|reflexivity].
+  destruct (is_prefix_app_inv _ _ _ E H2) as [Ha Hb]. rewrite Ha in H1.
+  change (length ping) with 4%nat in Hb. unfold len in H1.
+  replace (Z.of_nat (length b) <? 4) with true in H1 by lia. discriminate.
+Qed.
+
+Lemma parse_core_more b b1 : parse_core b = (More, b1) -> b1 = b.
+Proof.
+  unfold parse_core. destruct b as [|c r]; [intros H; inversion H; reflexivity|].
+  destruct ((len (c :: r) <? 4) && is_prefix (c :: r) ping); [intros H; inversion H; reflexivity|].
+  destruct (is_prefix ping (c :: r)); [discriminate|].
+  destruct (parse_frame max_levels (c :: r)); intros H; inversion H; reflexivity.
+Qed.
+
+Lemma parse_core_err b b1 : parse_core b = (Err, b1) ->
+  b1 = b /\ forall m, parse_core (b ++ m) = (Err, b ++ m).
+Proof.
+  unfold parse_core. destruct b as [|c r]; [discriminate|].
+  destruct ((len (c :: r) <? 4) && is_prefix (c :: r) ping) eqn:E1; [discriminate|].
+  destruct (is_prefix ping (c :: r)) eqn:E2; [discriminate|].
+  destruct (parse_frame max_levels (c :: r)) eqn:E3; try discriminate.
+  intros H; inversion H; subst. split; [reflexivity|]. intros m.
+  change ((c :: r) ++ m) with (c :: (r ++ m)). cbv iota.
+  change (c :: (r ++ m)) with ((c :: r) ++ m).
+  rewrite (parse_core_cond1 (c :: r) m ltac:(discriminate) E1), (parse_core_cond2 _ m E1 E2).
+  destruct (parse_frame_good max_levels) as [[_ HE] _]. rewrite (HE _ E3 m). reflexivity.
+Qed.
+
+Lemma skipn_app_le {A} n (b m : list A) : (n <= length b)%nat -> skipn n (b ++ m) = skipn n b ++ m.
+Proof. intros H. rewrite skipn_app. replace (n - length b)%nat with 0%nat by lia. reflexivity. Qed.
+
+Lemma is_prefix_length p b : is_prefix p b = true -> (length p <= length b)%nat.
+Proof.
+  revert b; induction p as [|x p IH]; intros b H; [cbn; lia|].
+  destruct b as [|y b]; [discriminate|]. cbn [is_prefix] in H. apply andb_prop in H as [_ H].
+  specialize (IH _ H). cbn [length]. lia.
+Qed.
+
+Lemma parse_core_done b f z b' : parse_core b = (Done f z, b') ->
+  (length b' < length b)%nat /\
+  forall m, exists b'', parse_core (b ++ m) = (Done f z, b'') /\ wsn b'' = wsn (b' ++ m).
+Proof.
+  unfold parse_core. destruct b as [|c r]; [discriminate|].
+  destruct ((len (c :: r) <? 4) && is_prefix (c :: r) ping) eqn:E1; [discriminate|].
+  destruct (is_prefix ping (c :: r)) eqn:E2.
+  - pose proof (skipn_length 4 (c :: r)) as Hsk.
+    remember (skipn 4 (c :: r)) as sk eqn:Esk.
+    intros H; inversion H; subst b' f z. pose proof (is_prefix_length _ _ E2) as Hl.
+    change (length ping) with 4%nat in Hl. split.
+    + pose proof (drop_while_length is_ws2 sk). lia.
+    + intros m. change ((c :: r) ++ m) with (c :: (r ++ m)). cbv iota.
+      change (c :: (r ++ m)) with ((c :: r) ++ m).
+      rewrite (parse_core_cond1 (c :: r) m ltac:(discriminate) E1), (is_prefix_app _ _ m E2).
+      eexists; split; [reflexivity|]. rewrite skipn_app_le by exact Hl. rewrite <- Esk.
+      apply drop_while_sub. exact ws2_sub_ws.
+  - destruct (parse_frame max_levels (c :: r)) as [f0 rest| |] eqn:E3; try discriminate.
+    intros H; inversion H; subst.
+    destruct (parse_frame_good max_levels) as [[HD _] HS].
+    destruct (HD _ _ _ E3) as [_ Hm]. pose proof (HS _ _ _ E3) as Hl. split.
+    + pose proof (drop_while_length is_nl rest). lia.
+    + intros m. change ((c :: r) ++ m) with (c :: (r ++ m)). cbv iota.
+      change (c :: (r ++ m)) with ((c :: r) ++ m).
+      rewrite (parse_core_cond1 (c :: r) m ltac:(discriminate) E1), (parse_core_cond2 _ m E1 E2), Hm.
+      eexists; split; [reflexivity|]. apply drop_while_sub. exact nl_sub_ws.
+Qed.
+
+Lemma wsn_app x m : wsn (x ++ m) = wsn (wsn x ++ m).
+Proof.
+  destruct (wsn x) as [|c r] eqn:E.
+  - rewrite (drop_while_app_nil _ _ _ E). reflexivity.
+  - rewrite drop_while_app_ne by congruence. rewrite E.
+    pose proof (drop_while_head _ _ _ _ E) as Hc.
+    change ((c :: r) ++ m) with (c :: (r ++ m)). rewrite drop_while_fix by exact Hc. reflexivity.
+Qed.
+
+Lemma drain_unfold fuel buf acc :
+  drain dparse (S fuel) buf acc =
+  match parse_core (wsn buf) with
+  | (Done f _, buf') => drain dparse fuel buf' (f :: acc)
+  | (More, buf') => (rev acc, NeedMore, buf')
+  | (Err, buf') => (rev acc, Failed, buf')
+  end.
+Proof. reflexivity. Qed.
+
+(** fuel and leading whitespace are irrelevant *)
+Lemma drain_norm : forall f1 f2 x y acc, wsn x = wsn y ->
+  (length x < f1)%nat -> (length y < f2)%nat ->
+  drain dparse f1 x acc = drain dparse f2 y acc.
+Proof.
+  induction f1 as [|f1 IH]; intros f2 x y acc Hxy H1 H2; [lia|].
+  destruct f2 as [|f2]; [lia|]. rewrite !drain_unfold, Hxy.
+  destruct (parse_core (wsn y)) as [[f z| |] b'] eqn:E; try reflexivity.
+  destruct (parse_core_done _ _ _ _ E) as [Hl _].
+  apply IH; [reflexivity| |].
+  - pose proof (drop_while_length is_ws x). rewrite Hxy in *. lia.
+  - pose proof (drop_while_length is_ws y). lia.
+Qed.
+
+Lemma drain_split : forall fuel x acc fs st buf',
+  (length x < fuel)%nat -> drain dparse fuel x acc = (fs, st, buf') ->
+  forall m fuel2 fuel3, (length (x ++ m) < fuel2)%nat -> (length (buf' ++ m) < fuel3)%nat ->
+  drain dparse fuel2 (x ++ m) acc = drain dparse fuel3 (buf' ++ m) (rev fs).
+Proof.
+  induction fuel as [|fuel IH]; intros x acc fs st buf' Hf H m fuel2 fuel3 H2 H3; [lia|].
+  rewrite drain_unfold in H.
+  destruct (parse_core (wsn x)) as [[f z| |] b1] eqn:E.
+  - destruct (parse_core_done _ _ _ _ E) as [Hl Hm]. destruct (Hm m) as (b'' & Hp & Hw).
+    assert (Hne : wsn x <> []) by (intros Hc; rewrite Hc in E; discriminate).
+    destruct fuel2 as [|fuel2]; [lia|]. rewrite drain_unfold.
+    rewrite drop_while_app_ne by exact Hne. rewrite Hp.
+    pose proof (drop_while_length is_ws x) as Hwl.
+    assert (Hb'' : (length b'' < length (wsn x ++ m))%nat).
+    { destruct (parse_core_done _ _ _ _ Hp) as [Hl2 _]. exact Hl2. }
+    rewrite app_length in *.
+    rewrite (drain_norm fuel2 (S (length (b1 ++ m))) b'' (b1 ++ m) (f :: acc) Hw ltac:(lia) ltac:(lia)).
+    apply (IH b1 (f :: acc) fs st buf' ltac:(lia) H m); rewrite app_length; lia.
+  - apply parse_core_more in E. inversion H; subst. rewrite rev_involutive.
+    apply drain_norm; [apply wsn_app|exact H2|exact H3].
+  - apply parse_core_err in E as [E _]. inversion H; subst. rewrite rev_involutive.
+    apply drain_norm; [apply wsn_app|exact H2|exact H3].
+Qed.
+
+Lemma drain_acc : forall fuel y acc,
+  drain dparse fuel y acc =
+  match drain dparse fuel y [] with (fs, st, b) => (rev acc ++ fs, st, b) end.
+Proof.
+  induction fuel as [|fuel IH]; intros y acc.
+  - cbn [drain rev]. rewrite app_nil_r. reflexivity.
+  - rewrite !drain_unfold. destruct (parse_core (wsn y)) as [[f z| |] b1].
+    + rewrite (IH b1 (f :: acc)), (IH b1 [f]).
+      destruct (drain dparse fuel b1 []) as [[fs st] b]. cbn [rev app]. rewrite <- app_assoc. reflexivity.
+    + cbn [rev]. rewrite app_nil_r. reflexivity.
+    + cbn [rev]. rewrite app_nil_r. reflexivity.
+Qed.
+
+Lemma drain_buf_split x m :
+  drain_buf dparse (x ++ m) =
+  match drain_buf dparse x with
+  | (fs, st, buf') =>
+      match drain_buf dparse (buf' ++ m) with
+      | (fs2, st2, b2) => (fs ++ fs2, st2, b2)
+      end
+  end.
+Proof.
+  unfold drain_buf. destruct (drain dparse (S (length x)) x []) as [[fs st] buf'] eqn:E.
+  rewrite (drain_split (S (length x)) x [] fs st buf' (Nat.lt_succ_diag_r _) E m (S (length (x ++ m))) (S (length (buf' ++ m))) (Nat.lt_succ_diag_r _) (Nat.lt_succ_diag_r _)).
+  rewrite drain_acc, rev_involutive. reflexivity.
+Qed.
+
+Lemma drain_idem x fs st b : drain_buf dparse x = (fs, st, b) -> drain_buf dparse b = ([], st, b).
+Proof.
+  intros H. pose proof (drain_buf_split x []) as Hs. rewrite app_nil_r, H, app_nil_r in Hs.
+  destruct (drain_buf dparse b) as [[fs2 st2] b2]. inversion Hs as [[Hf Hst Hb]].
+  rewrite <- (app_nil_r fs) in Hf at 1. apply app_inv_head in Hf. subst. reflexivity.
+Qed.
+
+Lemma feed_all_spec : forall chunks buf acc st,
+  feed_all dparse buf chunks acc st =
+  match chunks with
+  | [] => (acc, st)
+  | _ => match drain_buf dparse (buf ++ concat chunks) with
+         | (fs, st', _) => (acc ++ fs, st') end
+  end.
+Proof.
+  induction chunks as [|c cs IH]; intros buf acc st; [reflexivity|].
+  cbn [feed_all concat]. rewrite app_assoc, (drain_buf_split (buf ++ c) (concat cs)).
+  destruct (drain_buf dparse (buf ++ c)) as [[fs1 st1] b1] eqn:E1. rewrite IH.
+  destruct cs as [|c2 cs'].
+  - cbn [concat]. rewrite app_nil_r, (drain_idem _ _ _ _ E1), app_nil_r. reflexivity.
+  - destruct (drain_buf dparse (b1 ++ concat (c2 :: cs'))) as [[fs2 st2] b2].
+    rewrite app_assoc. reflexivity.
+Qed.
+
+Lemma chunk_independent chunks :
+  run_chunks dparse chunks = run_chunks dparse [concat chunks].
+Proof.
+  unfold run_chunks. rewrite !feed_all_spec. destruct chunks as [|c cs].
+  - reflexivity.
+  - cbn [concat]. rewrite !app_nil_r. reflexivity.
+Qed.
+
+(** progress: the drain loop's fuel [S (length buf)] is never exhausted (any
+    larger fuel gives the same result) *)
+Lemma drain_fuel_irrelevant buf fuel : (length buf < fuel)%nat ->
+  drain dparse fuel buf [] = drain_buf dparse buf.
+Proof. intros H. unfold drain_buf. apply drain_norm; [reflexivity|exact H|lia]. Qed.
+
+Lemma wfb_wf : forall f d, wfb dparse dprint d f = true -> wf d f.
+Proof.
+  induction f using frame_ind'; intros [|d'] Hb; cbn [Resp.wfb Resp.wf] in *; try discriminate; try exact I.
+  - apply negb_true_iff in Hb. exact Hb.
+  - apply negb_true_iff in Hb. exact Hb.
+  - exact Hb.
+  - lia.
+  - apply andb_prop in Hb as [H1 H2]. split; [lia|]. rewrite forallb_forall in H2.
+    rewrite Forall_forall in *. intros x Hx. apply (H x Hx). apply H2; exact Hx.
+  - apply andb_prop in Hb as [H1 H2]. apply negb_true_iff in H2. split; [|exact H2].
+    destruct (dparse (dprint b)) as [b'|]; [|discriminate]. apply Z.eqb_eq in H1. subst. reflexivity.
+  - apply andb_prop in Hb as [H1 H3]. apply andb_prop in H1 as [H1 H2]. split; [lia|]. split; [exact H2|].
+    rewrite forallb_forall in H3. rewrite Forall_forall in *. intros x Hx. apply (H x Hx). apply H3; exact Hx.
+  - apply andb_prop in Hb as [H1 H2]. split; [lia|]. rewrite forallb_forall in H2.
+    rewrite Forall_forall in *. intros x Hx. apply (H x Hx). apply H2; exact Hx.
+Qed.
+
+Lemma roundtrip_b f rest : wfb dparse dprint max_levels f = true ->
+  exists b, ser f = (b, true) /\ parse_frame max_levels (b ++ rest) = Done f rest.
+Proof.
+  intros H. apply wfb_wf in H. destruct (roundtrip_aux f _ H) as (b & Hs & Hp).
+  exists b. split; [exact Hs|apply Hp].
+Qed.
+
+Lemma roundtrip f rest : wf max_levels f ->
+  exists b, ser f = (b, true) /\ parse_frame max_levels (b ++ rest) = Done f rest.
+Proof. intros H. destruct (roundtrip_aux f _ H) as (b & Hs & Hp). exists b. split; [exact Hs|apply Hp]. Qed.
+
+Lemma parse_frame_stable d data :
+  (forall f rest, parse_frame d data = Done f rest ->
+     (length rest < length data)%nat /\ forall more, parse_frame d (data ++ more) = Done f (rest ++ more)) /\
+  (parse_frame d data = Err -> forall more, parse_frame d (data ++ more) = Err).
+Proof.
+  destruct (parse_frame_good d) as [[HD HE] HS]. split.
+  - intros f rest H. split; [exact (HS _ _ _ H)|]. destruct (HD _ _ _ H) as [_ Hm]. exact Hm.
+  - intros H. exact (HE _ H).
+Qed.
+
+End Facts.
